@@ -23,9 +23,9 @@ def run(tier, a=None):
     c = c.replace('#define MAXSEG 18', '#define MAXSEG %d' % (NMAX + 2)).replace('#define MAXPTS 20', '#define MAXPTS %d' % (NMAX + 3))
     cf = os.path.join(wd, 'slice.c'); open(cf, 'w').write(c)
     units = [('A-open', ['UNIT_A', 'ONLY_OPEN', 'NMAX=%d' % NMAX, 'KMAX=%d' % KMAX], NMAX + 3), ('A-closed', ['UNIT_A', 'ONLY_CLOSED', 'NMAX=%d' % NMAX, 'KMAX=%d' % KMAX], NMAX + 3),
-             ('B-fit', ['NMAX=%d' % (4 if tier == 'quick' else 5), 'KMAX=2'], (4 if tier == 'quick' else 5) * 2 + 2)]
+             ('B-fit', ['NMAX=%d' % (4 if tier == 'quick' else 5), 'KMAX=3'], (4 if tier == 'quick' else 5) * 3 + 2)]
     with ThreadPoolExecutor(3) as ex:
-        outs = list(ex.map(lambda u: cbmc(cf, u[1], u[2], 280 if tier == 'quick' else 1500), units))
+        outs = list(ex.map(lambda u: cbmc(cf, u[1], u[2], (900 if astx.FLOATS_IN_SLICE else 280) if tier == 'quick' else 2400), units))
     states = 0
     for (name, defs, unwind), (out, secs) in zip(units, outs):
         props = re.findall(r'^\[(\S+)\] line \d+ (.*?): (SUCCESS|FAILURE)$', out, re.M)
@@ -73,7 +73,7 @@ def run(tier, a=None):
     res.validated = agree; res.paths = states; res.functions = {'manif::decasteljau (integer/control-flow slice: window construction; curve-fitting loops)'}
     res.extra.update({'states': max(1, states), 'transitions': max(1, states), 'traces_validated_against_impl': agree})
     res.samples = [{'unit': u[0], 'defs': u[1], 'unwind': u[2]} for u in units]
-    res.bounds = ['N <= %d, 2 <= degree <= %d, k_interp <= %d, open and closed; --unwind with --unwinding-assertions' % (NMAX, NMAX + 1, KMAX), 'unit B (curve-fitting loops on one arbitrary window): N <= %d, k <= 2' % (4 if tier == 'quick' else 5),
+    res.bounds = ['N <= %d, 2 <= degree <= %d, k_interp <= %d, open and closed; --unwind with --unwinding-assertions' % (NMAX, NMAX + 1, KMAX), 'unit B (curve-fitting loops on one arbitrary window): N <= %d, k <= 3' % (4 if tier == 'quick' else 5), 'floating-point code in the slice: %s (when present it is kept verbatim and decided by CBMC bit-precisely)' % astx.FLOATS_IN_SLICE,
                   'floor(double(a)/double(b)) and double(t)/k == 1.0 are rewritten to exact integer arithmetic (valid for operands < 2^20); group operations are opaque except Q (+) ((Q\' (-) Q) * 1) = Q\' (C04)']
     runner.write_evidence(res, 'model_checking',
         'The integer and control-flow behaviour of decasteljau() is sliced from the current source text (containers -> bounded index arrays, &trajectory[e] -> recorded index with e < N assertion, unsigned int -> uint32_t, size_t -> uint64_t so wrap-around is preserved) and checked by CBMC for symbolic (N, degree, k_interp, closed): every read index is inside the trajectory, all loops terminate within the unwinding bound, invalid arguments raise and valid ones do not, the number of windows is maximal ((N-1) div (degree-1), plus one wrapping window when closed), window w covers indices w(d-1)..w(d-1)+d-1 with exactly degree control points, every window yields the documented fixed number of curve points and its last curve point is its last control point. The generated C is also compiled natively and compared with the real decasteljau<SE2d> on the whole box.',
